@@ -16,6 +16,7 @@ statements - never a mixture, never truncated), acknowledged commits are contain
 the crash / after the fault cleared succeed, objects referenced by current versions exist, no panic, no hang.
 """
 import json
+import struct
 import os
 import random
 import time
@@ -51,8 +52,14 @@ def base_scenario(beh, idx, rng, prop):
         out += [{"op": "refresh", "c": w, "perm": rng.randrange(6)}, {"op": "rows", "c": w},
                 {"op": "version", "c": w, "save": "VA"},
                 {"op": "stmt", "c": w, "id": "e1", "kind": "ins", "key": "i:4401", "cols": {"a": "t:e1"}, "wt": 90},
-                {"op": "version", "c": w, "save": "VB"},
-                {"op": "changes", "c": w, "from_ref": "VA", "to_ref": "VB"},
+                {"op": "version", "c": w, "save": "VB"}]
+        if deep:
+            # INSERT of keys that are stored in the other numeric representation (REAL n.0 over the prefilled INTEGER n):
+            # refused as duplicates - also when a storage request of the statement fails
+            for j, n in enumerate((1000, 1003)):
+                out.append({"op": "stmt", "c": w, "id": "tw%d" % j, "kind": "ins", "key": "r:%016x" % struct.unpack(">Q", struct.pack(">d", float(n)))[0],
+                            "cols": {"a": "t:twin"}, "wt": 91 + j})
+        out += [{"op": "changes", "c": w, "from_ref": "VA", "to_ref": "VB"},
                 {"op": "changes", "c": w, "from": [], "to_ref": "VB"},
                 {"op": "open", "c": "m0", "mode": "rw", "perm": rng.randrange(6)}]
     feats = set()
